@@ -384,8 +384,9 @@ func (u *Unit) intrinsic(st *State, fr *Frame, in *ssa.Call, fn *ssa.Function, a
 		}
 		a, o, l := u.seqOf(st, args[0])
 		sum := IntLit(0)
+		o = u.name(o, "vo")
 		for i := int64(0); i < n; i++ {
-			by := Select(a, Add(o, IntLit(i)))
+			by := u.nameShort(Select(a, Add(o, IntLit(i))), "vb")
 			u.byteFact(by)
 			sum = Add(Mul(sum, IntLit(256)), by)
 		}
@@ -393,15 +394,22 @@ func (u *Unit) intrinsic(st *State, fr *Frame, in *ssa.Call, fn *ssa.Function, a
 	case "val":
 		a, o, l := u.seqOf(st, args[0])
 		res := IntLit(0)
+		o = u.name(o, "vo")
+		l = u.name(l, "vl")
+		var bs [8]*Term
 		for i := int64(0); i < 8; i++ {
-			u.byteFact(Select(a, Add(o, IntLit(i))))
+			bs[i] = u.nameShort(Select(a, Add(o, IntLit(i))), "vb")
+			u.byteFact(bs[i])
+		}
+		// prefix sums: s_n = value of the first n bytes
+		sum := IntLit(0)
+		var sums [9]*Term
+		for n := int64(1); n <= 8; n++ {
+			sum = u.nameShort(Add(Mul(sum, IntLit(256)), bs[n-1]), "vs")
+			sums[n] = sum
 		}
 		for n := int64(8); n >= 1; n-- {
-			sum := IntLit(0)
-			for i := int64(0); i < n; i++ {
-				sum = Add(Mul(sum, IntLit(256)), Select(a, Add(o, IntLit(i))))
-			}
-			res = Ite(Eq(l, IntLit(n)), sum, res)
+			res = Ite(Eq(l, IntLit(n)), sums[n], res)
 		}
 		return res, true
 	case "forall", "exists":
